@@ -452,7 +452,7 @@ Definition props_spec (so : val) (h : heap) : Prop :=
     exists st l' k' s' h' m',
       (exists sB, bsE prog_env cs_props_seq (s6 so h v k2 s3 blk newb m2) (OBreak sB) /\ bsE prog_env cs_tail sB (OReturn (VInt st) (crf fv ov l' k' s' h' m'))) /\
       prefix_of m2 m' /\
-      ((st = SBDF_OK /\ c_so l' = VCell (List.length h) 0 /\ releasable h h' m' /\ props_end (Z.to_nat v) s3 = Some s')
+      ((st = SBDF_OK /\ c_so l' = VCell (List.length h) 0 /\ releasable h h' m' /\ props_end (Z.to_nat v) s3 = Some s' /\ Forall byte s')
        \/ (st < 0 /\ c_so l' = so /\ exists j, h' = h ++ nones j)).
 
 Lemma cs_read_gen so k sx h m : Forall byte sx ->
@@ -464,7 +464,7 @@ Lemma cs_read_gen so k sx h m : Forall byte sx ->
     bsE prog_env (fbody prog_sbdf_cs_read) (crf fv ov (crl0 so) k sx h m) (OReturn (VInt st) (crf fv ov l' k' s' h' m')) /\ prefix_of m m' /\
     ((st = SBDF_OK /\ c_so l' = VCell L 0 /\ releasable h h' m' /\
         exists s1 va s2 v s3, sec_expect SBDF_COLUMNSLICE_SECTIONID sx = Ok (tt, s1) /\ Va.va_read false None s1 = Ok (va, s2) /\ read_int32 false s2 = Ok (v, s3) /\ 0 <= v /\
-                              props_end (Z.to_nat v) s3 = Some s')
+                              props_end (Z.to_nat v) s3 = Some s' /\ Forall byte s')
      \/ (st < 0 /\ c_so l' = so /\ exists j, h' = h ++ nones j)).
 Proof.
   intros Hs NB NBP PROPS L.
@@ -598,7 +598,7 @@ Proof.
   exists SBDF_OK. eexists (Build_crl _ _ _ _ _ _ _ _ _ _). do 4 eexists. split; [|split; [exact Pf1|left; split; [reflexivity|split; [reflexivity|]]]].
   2: { split.
        - exists (Some slice :: Some blk :: newb). split; [reflexivity|]. split; [cbn [List.length]; lia|]. apply cs_sem_fresh. exact VR.
-       - exists s1, va, s2, 0, s3. split; [reflexivity|]. split; [exact MV|]. split; [exact ER|]. split; [lia|reflexivity]. }
+       - exists s1, va, s2, 0, s3. split; [reflexivity|]. split; [exact MV|]. split; [exact ER|]. split; [lia|]. split; [reflexivity|exact (read_int32_bytes s2 0 s3 Hs2 ER)]. }
   eapply cs_read_brk.
   - unfold cs_body. cbn [fbody prog_sbdf_cs_read]. apply HEAD. apply PRE.
     eapply bsE_seq; [eapply bsE_seq; [exact T3|uncr; eapply bsE_if; [evk; reflexivity|reflexivity|apply bsE_skip]]|].
@@ -619,8 +619,8 @@ Proof.
     eapply bsE_seq; [eapply bsE_if; [evk; chk7; evk; rewrite Eneg; reflexivity|reflexivity|apply bsE_skip]|].
     revert B1. unfold cs_props_seq, cs_body, s6. cbn [fbody prog_sbdf_cs_read]. uncr. fold slice. fold hY. intros B1. exact B1.
   - destruct Pf1 as (x1 & ->). destruct Pf2 as (x2 & ->). exists (x1 ++ x2). now rewrite app_assoc.
-  - destruct Out as [(-> & Ho & Rl & PE)|(Hn & Ho & Hj)]; [left|right; split; [exact Hn|split; [exact Ho|exact Hj]]].
-    split; [reflexivity|]. split; [exact Ho|]. split; [exact Rl|]. exists s1, va, s2, v, s3. split; [reflexivity|]. split; [exact MV|]. split; [exact ER|]. split; [lia|exact PE].
+  - destruct Out as [(-> & Ho & Rl & PE & PB)|(Hn & Ho & Hj)]; [left|right; split; [exact Hn|split; [exact Ho|exact Hj]]].
+    split; [reflexivity|]. split; [exact Ho|]. split; [exact Rl|]. exists s1, va, s2, v, s3. split; [reflexivity|]. split; [exact MV|]. split; [exact ER|]. split; [lia|split; [exact PE|exact PB]].
 Qed.
 End Main.
 
